@@ -30,6 +30,18 @@ CHECKS = {
  "C19": ("other", "non-interference (taint) analysis: log-level globals/predicates as sources, log-only effect classification of every region controlled by a tainted branch, transparency check of the one sanctioned wrapper (forward once, same params, CallSlice iff variadic, result returned untouched)",
          "Decides that the log level can influence only log-only code and that the debug interception wrapper is transparent, for every scenario and value, because the rule is evaluated on every tainted branch and every path of the wrapper closures. Does not decide termination/panic-freedom of fmt on cyclic values.",
          "Trusted: go/ssa; the allow-list of read-only std functions in c19.go; eight named module functions classified log-safe with reasons (decoders' String/Decode, RawRead, DecodeAddress)."),
+ "C01": ("other", "provenance slices (embedded word = reflect.Value data word; patched address = entry), must-pass registration in the GC-visible patch table, layout comparison of unsafe mirror structs against the toolchain's real types under types.Sizes for amd64 and arm64, abstract interpretation of the entry-jump template (register write-set)",
+         "Decides five structural facts the mock mechanism rests on; breaking any of them breaks the property for some signature or GC schedule. The behavioural core (ABI transparency for every signature, across GC and stack moves) is a run-time fact and is NOT decided.",
+         "Trusted: go/ssa; types.SizesFor(gc, arch) for layouts; the Go ABIInternal register assignment (amd64 RDX / arm64 R26 closure context, R0–R15 integer arguments) taken from cmd/compile/abi-internal.md."),
+ "C02": ("other", "provenance + ordering rules over the patch package: what each text writer writes, write-once guard fields, single provenance of captured bytes (private copy read at the patch origin, sentinel-tested), restore-before-recapture dominance, restore-before-delete, fan-out loops of Reset/Cancel",
+         "Decides the byte-provenance and ordering discipline that makes 'restore' mean 'pristine' for every operation history (it holds on every CFG path incl. re-apply and error paths), and that Reset reaches every cached child. Byte equality of the live image is not decided.",
+         "Trusted: go/ssa; module call graph; field names of patch.Guard/patch.patch (origin, originBytes, jumpBytes, applied) are the anchors."),
+ "C14": ("other", "who-may-call rule on the text writer, DBM bounds guards (jump shorter than scanned extent, trampoline data fits), pairing/typestate of mprotect RWX→copy→RX over the same (addr,len) with must-pass on all exits, constant evaluation of PROT flags, induction-variable shape of the page loop, copy-provenance of readers",
+         "Decides that only the patch layer writes text, that writes are bounded by scanned extents before any write, that the writer's protection changes pair up over the written range on every exit and keep EXEC, that the page loop covers the range, and that reads are copies. That the scanned extent is the function's true extent is not decided.",
+         "Trusted: go/ssa; linux numeric values of PROT_* and SYS_MPROTECT; one known finding (fallback writer drops PROT_EXEC)."),
+ "C15": ("proof", "abstract interpretation of the byte emitters over symbolic 64-bit inputs in exact domains (bit vectors with named input bits; linear forms mod 2^k; wrapped interval sets for the distance guard), path enumeration, callee inlining; instruction-form matching against hand-written encodings",
+         "Proves for ALL 2^64 destinations (and sources) that each emitter yields the intended instruction form with every address lane placed once, that the rel32 displacement is dest−src−5 mod 2^32, and that the set of distances for which the relative form is chosen is contained in the set where that displacement fits — the exact boundary, including negation overflow. Proof is by exhaustive symbolic evaluation, not sampling; what the CPU does with the bytes is taken from the ISA manuals (trusted base).",
+         "Trusted base listed in the evidence file: go/ssa construction, the abstract transfer functions, encodings of 7 instruction forms, little-endian host for the uint32 store."),
 }
 NA = {}
 PENDING_REASON = "check not built yet in this revision (planned per DESIGN.md section 3); not claimed until it runs"
